@@ -94,6 +94,12 @@ class Repo:
         tree._parent = None  # type: ignore[attr-defined]
         walk(tree, [], None, None)
 
+    def reindex(self) -> None:
+        """rebuild the function / class index after a canonicalisation renamed definitions in the parsed trees"""
+        self.funcs, self.classes, self.all_funcs, self._by_node = {}, {}, [], {}
+        for rel, tree in self.modules.items():
+            self._index(rel, tree)
+
     # ------------------------------------------------------------------ lookup
     def func(self, qual: str, hint: str | None = None) -> Func:
         """Resolve an anchor.  `hint` is a module path suffix; without a hint the trio
